@@ -185,8 +185,8 @@ PROPS = {
                  {"cmd": "image-cycles", "mode": "image", "args": ["--cycles", "10", "--keys", "300"], "cases": {"quick": 1, "thorough": 1}, "corpus": True, "leaks_fail": True},
                  {"cmd": "image-cycles", "mode": "image", "args": ["--cycles", "8", "--keys", "2500"], "cases": {"quick": 0, "thorough": 1}, "corpus": True, "leaks_fail": True, "thorough_only": True},
                  {"cmd": "image-script", "mode": "image", "args": ["--focus", "script-freelist-reopen"], "cases": {"quick": 1, "thorough": 1}, "corpus": True, "leaks_fail": True},
-                 dict(IMG_RUN, leaks_fail=True), dict(ALLOC_FL), dict(ALLOC_PROBE), dict(OVERFLOW_RUN), dict(LEAFUPD_RUN)],
-        "rule": IMG_RULE + ALLOC_RULE + " C19 (accounting): for ln and bbn every page number in [1, bump) must be in use by the decoded state (leaf / overflow / branch) or tracked by the "
+                 dict(IMG_RUN, leaks_fail=True), dict(ALLOC_FL), dict(ALLOC_PROBE), dict(OVERFLOW_RUN), dict(LEAFUPD_RUN)] + CRASH_IMAGES[:3],
+        "rule": IMG_RULE + ALLOC_RULE + CRASH_IMAGES_RULE + " After a crash: the occupancy reported by the HANDLE THAT RECOVERED the directory (after its follow-up commit) is compared with the full buckets of the table it leaves (counter recovered_occupancy_compared)." + " C19 (accounting): for ln and bbn every page number in [1, bump) must be in use by the decoded state (leaf / overflow / branch) or tracked by the "
                 "free list (free-list page or listed free page), and no page may be both; the driver prints ln_leaked / bbn_leaked per snapshot and any non-zero value is reported as "
                 "`C19 leaked pages: …`; hash-table occupancy: the value returned by Nomt::hash_table_utilization().occupied at every snapshot must equal the number of full meta bytes the decoder finds (ht_full), which in turn must equal the number of merkle pages that must be stored (0 for the empty store); frontier: 10 (thorough: 8 x 2500 keys, several free-list pages) identical fill / refill-with-migrating-value-sizes / empty cycles, criterion fixed in advance: ln_bump and bbn_bump read from the meta page after the last cycle must not exceed those after cycle 4.",
         "trusted_base": IMG_TB, "assumptions": IMG_ASSUME,
